@@ -65,6 +65,7 @@ func Load(cfg LoadConfig) (*Program, error) {
 	if cfg.GOARCH != "" {
 		env = append(env, "GOARCH="+cfg.GOARCH)
 	}
+	cfg.Overlay = canonicalOverlay(cfg.Dir, cfg.Overlay) // new single-expression predicate helpers are analysed inline (canon.go)
 	fset := token.NewFileSet()
 	pc := &packages.Config{
 		Mode:       packages.LoadAllSyntax,
